@@ -96,6 +96,8 @@ type Call struct {
 	DAG    [][]string
 	UseTag bool
 	HasOpt bool
+	OptName bool   // the plain name ov is injected (as *int64) in this call
+	OvPtr   *int64 // what was injected under it
 	OddKeys bool // the data map also carries an empty key and a nil value (the pool must ignore both)
 	TwinOf  int  // >= 0: this call repeats call TwinOf through the variant without a stop tag (C14: tag never set => identical)
 	Plan   map[int]*RulePlan
